@@ -263,6 +263,7 @@ def run(ctx):
                 break
         if bad:
             mc.fail(case, bad, "several-connections/" + bad.split(": ", 1)[1].split(" ")[0])
+    vl = vendor_silence_stream(ctx, r)
     x = Stream("exploratory-ties", in_domain=False)
     hs = []
     for _ in range(500):
@@ -270,7 +271,102 @@ def run(ctx):
         evs, big = timed_history(r, timeout, ties=True)
         hs.append(("astm", timeout, evs, {}))
     run_timed(x, hs, ctx, in_oracle=False)
-    return [s, a, lp, mc, x]
+    return [s, a, lp, mc, vl, x]
+
+
+def vendor_case(r):
+    """(line, converts): a line in a vendor format; converts=False when one of its parts cannot be converted (impossible
+    date / time, a result that is no number, sample type that is no UTF-8): nothing is delivered for it, so it does not
+    end a transfer"""
+    from harness.props import C18
+    if r.random() < 0.5:
+        line, meta = C18.spot_line(r)
+        k = r.choice(["ok", "ok", "month", "zero-date", "time", "number", "dots", "utf8"])
+        date = line[1:9]
+        if k == "month":
+            line = line.replace(date, date[:3] + b"13" + date[5:], 1)
+        elif k == "zero-date":
+            line = line.replace(date, b"00/00/00", 1)
+        elif k == "time":
+            i = line.index(b":")
+            line = line[:i - 2] + b"25:61" + line[i + 3:]
+        elif k == "number":
+            line = line.replace(b"Na" + line.split(b"Na", 1)[1].split(b"mmol/L", 1)[0], b"Na 1.2.3 ", 1)
+        elif k == "dots":
+            line = line.replace(b"K" + line.split(b"]", 1)[1].split(b"K", 1)[1].split(b"mmol/L", 1)[0], b"K ... ", 1)
+        elif k == "utf8":
+            i, j = line.index(b"["), line.index(b"]")
+            line = line[:i + 1] + b"\xff\xfe" + line[j:]
+        return line, k == "ok", "spot/" + k
+    line, tags = C18.mini_line(r)
+    k = r.choice(["ok", "ok", "date", "time"])
+    if k == "date":
+        if b"\x1etd" not in line:
+            return line, True, "mini/ok"
+        i = line.index(b"\x1etd") + 3
+        line = line[:i] + r.choice([b"13/45/99", b"02/30/23", b"1/2/3x"]) + line[i + 8:]
+    elif k == "time":
+        if b"\x1ett" not in line:
+            return line, True, "mini/ok"
+        i = line.index(b"\x1ett") + 3
+        line = line[:i] + r.choice([b"25:61", b"10-20", b"ab:cd"]) + line[i + 5:]
+    return line, k == "ok", "mini/" + k
+
+
+def vendor_silence_stream(ctx, r):
+    """a unit in a vendor line format followed by silence: a converted line ends a transfer (the connection may stay
+    idle for ever); a line that cannot be converted ends nothing - one timeout later the connection is closed, and
+    nothing is delivered"""
+    vl = Stream("vendor-lines-and-silence")
+    for _ in range(3000 if ctx.thorough else 400):
+        T = r.choice([1, 2, 5, 15])
+        fmt = r.choice(["astm", "lis2a", "json"])
+        line, converts, kind = vendor_case(r)
+        if not gens.is_vendor_line(line):
+            continue
+        t = 0
+        pre = []
+        if r.random() < 0.5:
+            pre.append((t, gens.ENQ))
+            for i in range(r.choice([0, 1, 2])):
+                t += r.randrange(0, T)
+                pre.append((t, gens.message_frames(r, seq=(i + 1) % 8, parts=1)[0][0]))
+            t += r.randrange(0, T)
+        c = impl.Conn(fmt=fmt, timeout=T)
+        for (tt, u) in pre:
+            c.loop.advance(tt)
+            c.event(("d", u))
+        c.loop.advance(t)
+        q0 = len(c.queue.items)
+        ob = c.event(("d", line))
+        delivered = len(c.queue.items) - q0
+        # optionally one more ordinary unit within the timeout: a fresh full timeout from there
+        t_last = t
+        after_unit = None
+        if r.random() < 0.3:
+            t_last = t + r.randrange(0, T)
+            c.loop.advance(t_last)
+            after_unit = gens.ENQ
+            c.event(("d", after_unit))
+        fired = c.loop.advance(t_last + r.choice([T + 1, 5 * T, 40 * T]))
+        case = {"format": fmt, "timeout": T, "before": [[tt, u.hex()] for tt, u in pre], "line_at": t, "line": line.hex(),
+                "kind": kind, "then_enq_at": t_last if after_unit else None}
+        vl.case(case, nontrivial=not converts)
+        vl.count(kind)
+        armed = (not converts) or after_unit is not None
+        exp = [t_last + T] if armed else []
+        if converts and delivered != 1:
+            vl.fail(dict(case, delivered=delivered), "a convertible vendor line delivered %d messages" % delivered,
+                    "vendor-lines-and-silence/delivery")
+        elif not converts and delivered:
+            vl.fail(dict(case, delivered=delivered), "a vendor line that cannot be converted delivered %d messages" % delivered,
+                    "vendor-lines-and-silence/delivery")
+        elif fired != exp:
+            vl.fail(dict(case, closes_at=fired, expected=exp),
+                    "after %s followed by silence the timer closes at %s, expected %s" % (
+                        "a converted vendor line" if converts else "a vendor line that cannot be converted", fired, exp),
+                    "vendor-lines-and-silence/" + ("never-closed" if not fired else "closed"))
+    return vl
 
 
 def search(ctx, disagreements):
